@@ -147,6 +147,9 @@ def j4_wrap(prog, rep):
     return n
 
 
+_poly_cache = {}
+
+
 def j1(prog, rep):
     C = cursor.CursorAnalysis(prog, "util/json.c")
     if len(C.funcs) < 9:
@@ -365,7 +368,22 @@ def j3(prog, rep):
                     dn = norm(d)
                     moved = [x for x in f.all_elems() if ((x.is_assign and x.op != "=") or x.is_incdec) and norm(x.kid(0)) == dn]
                     if dn in mallocs and moved:
-                        rep.unknown("J3-bounded", inst, c.where, "destination is a cursor advanced through a locally allocated buffer (a serialiser, not a parser); its layout agreement is C17's")
+                        # a cursor advanced through a buffer allocated here: decided relationally -- at the copy, the cursor lies at
+                        # or after the start of the allocation and cursor + length does not pass allocation start + allocation size
+                        from .. import poly
+                        from ..poly import Lin
+                        if f.name not in _poly_cache:
+                            _poly_cache[f.name] = poly.Analysis(f, quiet={"memcpy", "memmove", "memset", "malloc", "calloc", None}).run()
+                        A = _poly_cache[f.name]
+                        st = A.state_before(c)
+                        m = mallocs[dn][1]
+                        base = Lin.var(("$ret", f.name, m.pos))
+                        size = A.lin(m.arg(0), st) if m.callee == "malloc" else None
+                        dl, nl = A.lin(d, st), A.lin(c.arg(li), st) if li is not None else None
+                        ok = size is not None and dl is not None and nl is not None and A.holds(st, ">=", dl, base) and A.holds(st, "<=", dl + nl, base + size)
+                        rep.check(ok, "J3-bounded", inst, c.where,
+                                  "the destination is a cursor moved through the buffer allocated at %s; cursor >= start and cursor + length <= start + allocated size "
+                                  "do not follow here (cursor %s, length %s, size %s)" % (m.loc, dl, nl, size), function=f.name, construct="cursor-copy")
                         continue
                     if dn in mallocs and kind == "len" and li is not None:
                         n += 1
